@@ -310,6 +310,112 @@ def rule_limits(ctx, cfg, r):
     r.note("auxiliary C15 lint: compress_stored flushes a block when bytes_written > 31*1024 (mz_deflateBound assumes one 5-byte header per 31744 bytes)")
 
 
+def rule_length_limit(ctx, cfg, r):
+    """Length limiting is applied to every code set that can need it, and its rebalancing step keeps the code complete.
+    (a) must-pass-through: every exit of enforce_max_code_size has merged the counts of all over-long codes into the limit bucket,
+        unless there is at most one symbol;  (b) the rebalancing step is the Kraft-neutral exchange of miniz (drop one code of the
+        limit length, split one shorter code into two codes one bit longer): the number of symbols is unchanged and the Kraft sum
+        falls by exactly one unit per iteration;  (c) optimize_table runs it, with its own limit, before any code size is assigned."""
+    import sm
+    c = ctx.crate(cfg)
+    E = ctx.effects(cfg)
+    f = c.fn("deflate::core::HuffmanOxide::enforce_max_code_size")
+    ctx.touched(f)
+    rows = paths.Evaluator(c, effects=E, pure_calls=sm.PURE, max_paths=3000).run(f)
+    ARR, N, LIM = P(1), P(2), P(3)
+
+    def merge_store(x):
+        """store (*num_codes)[limit] = (*num_codes)[limit] + sum(num_codes[limit+1..])"""
+        sums = {}
+        idx_from = {}
+        for e in x.effects:
+            if e[0] != "call":
+                continue
+            if "Index" in e[1] and e[1].endswith("::index") and len(e[2]) == 2 and e[2][1][0] == "agg" and e[2][1][1].endswith("RangeFrom"):
+                lo = e[2][1][4][0]
+                if lo == ("bin", "Add", LIM, ("int", 1)) or (lo[0] == "bin" and lo[1] == "Add" and lo[2] == LIM and is_const(lo[3]) and const_val(lo[3]) == 1):
+                    idx_from[call_res(e)] = True
+            if e[1].endswith("Iterator::sum"):
+                sums[call_res(e)] = e
+        for e in x.stores():
+            if e[1] == ("idx", ("deref", ARR), LIM):
+                parts = sum_parts(e[2])
+                has_self = any(p[0] == "load" and p[1] == e[1] for p in parts)
+                has_sum = any(p in sums and paths.term_contains(p, lambda y: y in idx_from) for p in parts)
+                if has_self and has_sum and len(parts) == 2:
+                    return True
+        return False
+
+    n_exit = 0
+    for x in rows:
+        if x.outcome[0] == "diverge":
+            continue
+        n_exit += 1
+        few = x.facts.decide_cmp("Le", N, ("int", 1)) == 1
+        if few:
+            r.ok(f.name, "merge/skipped-single", "returns untouched only when there is at most one symbol")
+        elif merge_store(x):
+            r.ok(f.name, "merge/%s" % x.outcome[0], "counts of codes longer than the limit are merged into the limit bucket")
+        else:
+            r.fail(f.name, "merge/%s" % x.outcome[0], "enforce_max_code_size can finish without merging the counts of all codes longer than "
+                   "the limit into num_codes[limit] although more than one symbol is in use: symbols whose optimal code is longer than the "
+                   "limit would keep code size 0 (incomplete code set, literals emitted with zero bits)", where=first_span(x), path=row_path(x))
+    if n_exit < 4:
+        r.fail(f.name, "merge/rows", "expected at least 4 non-panicking rows of enforce_max_code_size, found %d" % n_exit)
+    # (b) rebalancing step
+    steps = 0
+    for x in rows:
+        if x.outcome[0] != "backedge":
+            continue
+        deltas = []
+        for e in x.stores():
+            if e[1][0] == "idx" and e[1][1] == ("deref", ARR):
+                deltas.append(e)
+        # the last stores of the row after the merge: limit -= 1 ; i -= 1 ; i+1 += 2
+        tail = deltas[1:] if deltas and merge_store(x) else deltas
+        if len(tail) < 3:
+            continue
+        steps += 1
+        def delta(e):
+            v = e[2]
+            if v[0] == "bin" and v[1] in ("Add", "Sub") and is_const(v[3]):
+                return e[1][2], (const_val(v[3]) if v[1] == "Add" else -const_val(v[3])), v[2]
+            return e[1][2], None, None
+        d = [delta(e) for e in tail[-3:]]
+        ok = d[0][0] == LIM and d[0][1] == -1 and d[1][1] == -1 and d[2][1] == 2 and \
+            d[2][0] == ("bin", "Add", d[1][0], ("int", 1)) or (d[2][0][0] == "bin" and d[2][0][1] == "Add" and d[2][0][2] == d[1][0] and is_const(d[2][0][3]) and const_val(d[2][0][3]) == 1
+                                                               and d[0][0] == LIM and d[0][1] == -1 and d[1][1] == -1 and d[2][1] == 2)
+        # the exchanged code is non-empty and shorter than the limit
+        nz = any(a[0] == "bin" and a[1] == "Ne" and a[2][0] == "load" and a[2][1] == ("idx", ("deref", ARR), d[1][0]) and is_const(a[3]) and const_val(a[3]) == 0
+                 and s.single() == 1 for a, s in x.atoms)
+        if ok and nz:
+            r.ok(f.name, "rebalance-step", "num_codes[limit] -= 1; num_codes[i] -= 1 (non-zero, i < limit); num_codes[i+1] += 2: symbol count "
+                 "unchanged, Kraft sum falls by one unit of 2^-limit")
+        else:
+            r.fail(f.name, "rebalance-step", "the rebalancing step is not the symbol-count-neutral exchange (-1 at limit, -1 at i, +2 at i+1 with "
+                   "num_codes[i] != 0): deltas %s" % [(tstr(a), b) for a, b, _ in d], where=first_span(x), path=row_path(x))
+    if steps < 1:
+        r.fail(f.name, "rebalance-rows", "the rebalancing step of enforce_max_code_size was not found")
+    # (c) optimize_table applies it before assigning sizes
+    g = c.fn("deflate::core::HuffmanOxide::optimize_table")
+    ctx.touched(g)
+    sites = call_sites(g, "HuffmanOxide::enforce_max_code_size")
+    if len(sites) != 1:
+        r.fail(g.name, "limit-applied", "optimize_table calls enforce_max_code_size %d times (expected once, in the non-static branch)" % len(sites))
+    else:
+        bb, t = sites[0]
+        lim = local_expr(c, g, bb, t["args"][2])
+        okarg = lim == ("var", "code_size_limit")
+        st = stores_to(E, g, "HuffmanOxide", "code_sizes")
+        fills = [b for b, tt in call_sites(g, "::fill")]
+        undominated = [b for b, i, s in st if not g.dominates(bb, b)]
+        if okarg and st and not undominated:
+            r.ok(g.name, "limit-applied", "the limit passed is code_size_limit and the call dominates all %d code-size assignments" % len(st))
+        else:
+            r.fail(g.name, "limit-applied", "enforce_max_code_size(limit=%s) does not dominate every assignment to code_sizes (%d stores, %d not dominated)"
+                   % (tstr(lim), len(st), len(undominated)), where=t.get("sp"))
+
+
 def run(ctx):
     cfg = "H1"
     r1 = ctx.rule("R10.1", "encoder tables = RFC 1951; symbols counted are the symbols emitted; fixed-block lengths", floor=3, config=cfg)
@@ -319,6 +425,8 @@ def run(ctx):
     rule_routing(ctx, cfg, r2, r3)
     r4 = ctx.rule("R10.4", "structural limits: code-length limits 15/15/7, header field widths, stored LEN/NLEN, BFINAL", floor=5, config=cfg)
     rule_limits(ctx, cfg, r4)
+    r6 = ctx.rule("R10.6", "length limiting: over-long codes always merged into the limit bucket, Kraft-neutral rebalancing step, applied before sizes are assigned", floor=6, config=cfg)
+    rule_length_limit(ctx, cfg, r6)
     r5 = ctx.rule("R10.5", "exactly one final block: in-loop blocks use flush None; the final block carries the requested flush", floor=4, config=cfg)
     from rules import c02
     c02.rule_result_discipline(ctx, cfg, r5)
